@@ -50,7 +50,7 @@ def run(ctx):
             # every other run: the library's first user in the process is a helper thread (key generation + reference) that has exited before the workers start
             helper = "1" if (lam == 128 or be.startswith("nayuki") or kind == "debug") else "0"
             # storm: eight evaluators released together before every evaluation, a client thread encrypting / decrypting / encoding alongside
-            storm = (40 if kind == "optim" else 8) * (4 if thorough else 1)
+            storm = (150 if kind == "optim" else 30) * (3 if thorough else 1)
             with open(tf, "w") as f:
                 rc, _, err = sh([exe, "--lambda", str(lam), "--threads", threads, "--rounds", str(rounds), "--count", "3", "--seed", str(ctx.seed), "--helper", helper, "--storm", str(storm)], stdout=f, timeout=3000)
             if rc != 0:
